@@ -19,7 +19,7 @@
 (*     Df re-introduces a missing rebinding: TLC must then find a history  *)
 (*     that violates Follows (sensitivity of the universe).                *)
 (***************************************************************************)
-EXTENDS Interp
+EXTENDS Interp, Json
 
 CONSTANTS Dim,        \* 1 or 2
           L,          \* source coordinates 0..L
@@ -29,7 +29,8 @@ CONSTANTS Dim,        \* 1 or 2
           Methods,
           History,    \* TRUE: all actions; FALSE: initial states only
           Reach,      \* theorems at the lattice points -Reach..L+Reach
-          Df          \* defects re-introduced in the mechanism
+          Df,         \* defects re-introduced in the mechanism
+          Emit        \* TRUE: print every source set of the universe (CASE)
 
 Coords(lo, hi) == IF Dim = 1 THEN {<<x, 0, 0>> : x \in lo..hi}
                   ELSE {<<x, y, 0>> : x \in lo..hi, y \in lo..hi}
@@ -87,6 +88,7 @@ Fill ==
                         [src[a].p[k] EXCEPT !.m = vs[a][k][1],
                                             !.rho = vs[a][k][2],
                                             !.f = vs[a][k][3]]]]]
+    /\ Emit => PrintT(<<"CASE", ToJson(src')>>)
     /\ UNCHANGED <<pts, th, evcur, old, evpts, nn>>
 
 \* set_interpolation_points: new point array (h = largest source h), then
